@@ -18,7 +18,7 @@ EXT_TARGET = b"/ext%2Ftarget;p=1?z=9"
 # concretisation variants of a case (the abstract case - what the specification sees - is the same, which is
 # the point: none of them changes what a hop is owed): a connect timeout shorter than the back-off pauses, the
 # caller's 'target' extension, an origin given as an IPv6 literal
-VARIANT_KEYS = ("tight", "tgtExt", "v6")
+VARIANT_KEYS = ("tight", "tgtExt", "v6", "upperScheme")
 
 
 def origin_host(case):
@@ -134,6 +134,10 @@ def request_args(case):
     if case.get("tgtExt"):
         ext["target"] = EXT_TARGET
     url = f"{case['scheme']}://{origin_authority(case)}/x"
+    if case.get("upperScheme"):
+        # the URL given as explicit components with the scheme in upper case ("HTTPS"): nothing normalises it.
+        # Refusing it (UnsupportedProtocol) is fine; accepting it means treating it as that scheme - TLS included
+        url = httpcore.URL(scheme=case["scheme"].upper().encode(), host=origin_host(case).encode(), port=None, target=b"/x")
     return url, ext
 
 
